@@ -2033,6 +2033,9 @@ class FST:
         if docstr is None:
             docstr = FST.get_option('docstr')
 
+        if docstr and self.a.__class__ is Constant:  # a docstring `Expr` is dedented, the string itself is not (same as `copy()`), its lines are its value
+            docstr = False
+
         key = 'ownlS' if docstr == 'strict' else 'ownlT' if docstr else 'ownlF'
 
         if cached := self._cache.get(key):  # cached indent and indentable lines
